@@ -40,6 +40,16 @@ def crashedStore (fs : FS) (t : List Nat) (k : Nat) (midWrite : Bool) : FS :=
   let fs1 := ((storeOps t).take k).foldl FS.apply fs
   if midWrite ∧ k = 1 then fs1.apply .writeTmpPartial else fs1
 
+/-- `StoreToFile t` run to its end; `writeFails` = `f.Write` returns an error after a partial write (disk full,
+quota, file-size limit): the function returns that error BEFORE closing and renaming, the partial temporary file
+stays behind "for debugging". Returns the file system and whether an error was returned. -/
+def storeResult (fs : FS) (t : List Nat) (writeFails : Bool) : FS × Bool :=
+  if writeFails then ((fs.apply .createTmp).apply .writeTmpPartial, true)
+  else ((storeOps t).foldl FS.apply fs, false)
+
+/-- length of `json.Marshal(tokensJSON{Tokens: t})` = `{"tokens":[a,b,...]}` -/
+def jsonLen (t : List Nat) : Nat := ("{\"tokens\":[" ++ ",".intercalate (t.map toString) ++ "]}").length
+
 /-- `LoadTokensFromFile(path)` never looks at the temporary file -/
 def FS.load (fs : FS) : Option (List Nat) := fs.main.load
 
